@@ -74,11 +74,12 @@ class Contract:
         self.lemmas = kw.pop("lemmas", None) or []
         self.verify = kw.pop("verify", True)  # False: contract is ASSUMED (trusted), used at call sites only
         self.exact_self_class = kw.pop("exact_self_class", False)
+        self.variant = kw.pop("variant", None)
         assert not kw, f"unknown contract keys {list(kw)}"
 
     @property
     def key(self):
-        return (self.relpath, self.qualname)
+        return (self.relpath, self.qualname + (f"#{self.variant}" if self.variant else ""))
 
 
 def _lst(x):
